@@ -335,8 +335,9 @@ func vhC29ParsedRequest() {
 	}
 	head += "\r\n"
 	var h RequestHeader
-	if err := h.Read(bufio.NewReader(bytes.NewReader([]byte(head)))); err != nil {
-		vAssert("head-parses", false)
+	err0 := h.Read(bufio.NewReader(bytes.NewReader([]byte(head))))
+	vAssert("head-parses", err0 == nil)
+	if err0 != nil {
 		return
 	}
 	switch vChoose("touch", 7) {
